@@ -266,13 +266,24 @@ impl TensorWal {
         let path = path.as_ref().to_path_buf();
 
         // Get current size if file exists
-        let current_size = if path.exists() {
+        let mut current_size = if path.exists() {
             std::fs::metadata(&path)?.len()
         } else {
             0
         };
 
         let file = OpenOptions::new().create(true).append(true).open(&path)?;
+
+        // A crash can leave a partially written record at the end of the log. Replay stops
+        // there, so anything appended behind it would be unreadable: drop the torn tail.
+        if current_size > 0 {
+            let whole = Self::whole_record_prefix_len(&path)?;
+            if whole < current_size {
+                file.set_len(whole)?;
+                file.sync_all()?;
+                current_size = whole;
+            }
+        }
 
         Ok(Self {
             file: BufWriter::new(file),
@@ -282,6 +293,28 @@ impl TensorWal {
             current_size,
             pending_sync_count: 0,
         })
+    }
+
+    /// Length in bytes of the longest prefix of the file that consists of whole records
+    /// (length + checksum + complete payload).
+    fn whole_record_prefix_len(path: &Path) -> io::Result<u64> {
+        let mut reader = BufReader::new(File::open(path)?);
+        let mut whole: u64 = 0;
+        loop {
+            let mut header = [0u8; 8];
+            match reader.read_exact(&mut header) {
+                Ok(()) => {},
+                Err(e) if e.kind() == io::ErrorKind::UnexpectedEof => break,
+                Err(e) => return Err(e),
+            }
+            let len = u64::from(u32::from_le_bytes([header[0], header[1], header[2], header[3]]));
+            let skipped = io::copy(&mut (&mut reader).take(len), &mut io::sink())?;
+            if skipped < len {
+                break;
+            }
+            whole += 8 + len;
+        }
+        Ok(whole)
     }
 
     /// Get the WAL file path.
